@@ -187,7 +187,7 @@ def do_check(prop, pid, tier, seed, a, scratch, t0):
     standin = None
     standin_fail = []
     if hasattr(prop, "STANDIN") and not a.no_standin:
-        standin = run_real(prop.STANDIN, ["--mode", "bounded", "--tier", tier, "--seed", str(seed)], scratch)
+        standin = run_real(prop.STANDIN, ["--mode", "bounded", "--tier", tier, "--seed", str(seed), "--prop", pid], scratch)
         if standin.get("error"):
             errors.append("stand-in failed: %s" % json.dumps(standin)[:1500])
         else:
@@ -339,6 +339,7 @@ def match_known(known, name):
 
 
 def match_known_witness(known, failure):
+    """A stand-in failure is a known finding only if it shows the listed symptom."""
     for k in known:
         for pat in k.get("standin", []):
             if re.search(pat, failure.get("what", "")):
